@@ -479,15 +479,13 @@ func fvcC04M(prefix string, style int, sub *fvcC04Tree) []fvcC04Item {
 
 func (s *fvcC04Stats) checkTree(t *testing.T, tree *fvcC04Tree, cfg Config, cfgName string) {
 	known := ""
+	// (param-prefix and star-trailing-slash were known findings until the fix commits e09e754 / c25e3c1: they are no
+	// longer excused, a disagreement on such a tree is a violation again)
 	switch {
-	case tree.paramPrefix():
-		known = "param-prefix"
 	case tree.keyCollision():
 		known = "key-collision"
 	case cfg.StrictRouting && tree.strictBareUse("", false):
 		known = "strict-bare-use"
-	case tree.rootWildcard("", false):
-		known = "star-trailing-slash"
 	}
 	s.trees++
 	twin := New(cfg)
